@@ -127,7 +127,8 @@ class NamespaceFunction(Namespace[symtable.Function]):
                 # free/nonlocal inevitablely exist in outer function namespace
                 # so check is not need here.
                 outer_symbol = outer.symt.lookup(nonlocal_free)
-                if (
+                # a function that rebinds the name through 'nonlocal' does not own it
+                if not outer_symbol.is_nonlocal() and (
                     outer_symbol.is_assigned()
                     or outer_symbol.is_imported()
                     or outer_symbol.is_parameter()
@@ -239,7 +240,8 @@ class NamespaceClass(Namespace[symtable.Class]):
                 # free/nonlocal inevitablely exist in outer function namespace
                 # so check is not need here.
                 outer_symbol = outer.symt.lookup(nonlocal_free)
-                if (
+                # a function that rebinds the name through 'nonlocal' does not own it
+                if not outer_symbol.is_nonlocal() and (
                     outer_symbol.is_assigned()
                     or outer_symbol.is_imported()
                     or outer_symbol.is_parameter()
